@@ -52,6 +52,7 @@ type c36Item struct {
 }
 type c36Call struct {
 	Method     string    `json:"method"` // u_blob | prod | exch | nope
+	Dyn        bool      `json:"dyn,omitempty"` // prod / exch: call the DYNAMIC stream method "dyn" (its init handler returns a producer resp. exchange state)
 	Adv        string    `json:"adv"`    // none | good | name_only | bad_size | other
 	Wish       string    `json:"wish"`   // how the request batch is sent: inline | ptr | bad
 	X          int64     `json:"x"`
@@ -240,6 +241,23 @@ func c36Server(calls []c36Call) *vgirpc.Server {
 		sc := script(cc)
 		if sc.Fail {
 			return nil, &vgirpc.RpcError{Type: "ValueError", Message: "scripted init failure"}
+		}
+		return &vgirpc.StreamResult{OutputSchema: c36OutSchema(sc.Var), State: &c36ProdState{c36State{Var: sc.Var, Turns: sc.Turns}}}, nil
+	})
+	// one dynamic stream method: the state type is chosen at run time, per call, from the
+	// history (the client means a producer or an exchange); no header is returned
+	vgirpc.DynamicStreamWithHeader(s, "dyn", HdrInt{}.ArrowSchema(), func(_ context.Context, cc *vgirpc.CallContext, p PInt) (*vgirpc.StreamResult, error) {
+		sc := script(cc)
+		if sc.Fail {
+			return nil, &vgirpc.RpcError{Type: "ValueError", Message: "scripted init failure"}
+		}
+		var i int
+		exchange := false
+		if _, err := fmt.Sscanf(cc.RequestID, "c%d", &i); err == nil && i >= 0 && i < len(calls) {
+			exchange = calls[i].Method == "exch"
+		}
+		if exchange {
+			return &vgirpc.StreamResult{OutputSchema: c36OutSchema(sc.Var), InputSchema: inSchemaX, State: &c36ExchState{c36State{Var: sc.Var, Exchange: true, Turns: sc.Turns}}}, nil
 		}
 		return &vgirpc.StreamResult{OutputSchema: c36OutSchema(sc.Var), State: &c36ProdState{c36State{Var: sc.Var, Turns: sc.Turns}}}, nil
 	})
@@ -446,7 +464,11 @@ func (c *c36Client) put(b arrow.RecordBatch, wish string, meta [][2]string) (arr
 func (c *c36Client) callBytes(i int) []byte {
 	cl := c.calls[i]
 	o := &c.obs[i]
-	meta := StdMeta(cl.Method, fmt.Sprintf("c%d", i), "")
+	wireMethod := cl.Method
+	if cl.Dyn && c36IsStream(cl.Method) {
+		wireMethod = "dyn"
+	}
+	meta := StdMeta(wireMethod, fmt.Sprintf("c%d", i), "")
 	if c.seg != nil {
 		name, size := c.seg.Name(), strconv.Itoa(c.seg.Size())
 		switch cl.Adv {
@@ -679,7 +701,7 @@ func c36CallTerm(c c36Call) string {
 	items := ListOf(c.Items, func(it c36Item) string {
 		return App("C36.Build_item", c36Ctor("wish", it.Wish), N(uint64(it.Rows)), Z(it.Val))
 	})
-	return App("C36.Build_call", c36Ctor("m", c.Method), c36Ctor("adv", c.Adv), c36Ctor("wish", c.Wish), Z(c.X), sc, items, Bool(c.ReleaseNow))
+	return App("C36.Build_call", c36Ctor("m", c.Method), Bool(c.Dyn && c36IsStream(c.Method)), c36Ctor("adv", c.Adv), c36Ctor("wish", c.Wish), Z(c.X), sc, items, Bool(c.ReleaseNow))
 }
 
 func c36SzTerm(k int, z c36Sz) string {
@@ -762,6 +784,9 @@ func c36Run(in c36In) CaseOut {
 	for i, o := range with.Calls {
 		c := in.Calls[i]
 		tagset["m-"+c.Method] = true
+		if c.Dyn && c36IsStream(c.Method) {
+			tagset["m-dyn-"+c.Method] = true
+		}
 		tagset["adv-"+c.Adv] = true
 		if o.ReqPtr {
 			ptrsIn++
@@ -899,11 +924,12 @@ func (g *c36G) stream(method, adv, wish string, nItems int, pBig, pEnd, pPtr, pB
 	if g.r.Intn(4) == 0 && nt > 0 {
 		nt -= 1 // default turn for the last input
 	}
+	dyn := g.r.Intn(3) == 0
 	vr := 0
 	if g.r.Intn(2) == 0 {
 		vr = g.r.Intn(c36NVar)
 	}
-	return c36Call{Method: method, Adv: adv, Wish: wish, X: int64(g.r.Intn(100)),
+	return c36Call{Method: method, Dyn: dyn, Adv: adv, Wish: wish, X: int64(g.r.Intn(100)),
 		Script: c36Script{Var: vr, Turns: g.turns(nt, ex, pBig, pEnd)}, Items: g.items(nItems, ex, pPtr, pBad), ReleaseNow: g.r.Intn(2) == 0}
 }
 func (g *c36G) gate() int {
@@ -1005,13 +1031,19 @@ func c36GenInputs(r *rand.Rand, n int, tier string) []c36In {
 		}
 	}
 	// a pointer request on a connection that never advertised, for every method; then a canary
-	for _, m := range []string{"u_blob", "prod", "exch", "nope"} {
+	type c36Kind struct {
+		m   string
+		dyn bool
+	}
+	// every method kind: unary, producer, exchange, unknown, dynamic producer, dynamic exchange
+	for _, kd := range []c36Kind{{"prod", true}, {"exch", true}, {"u_blob", false}, {"prod", false}, {"exch", false}, {"nope", false}} {
+		m := kd.m
 		for _, wish := range []string{"ptr", "bad"} {
 			for _, nItems := range []int{0, 2} {
 				if !c36IsStream(m) && nItems > 0 {
 					continue
 				}
-				c := c36Call{Method: m, Adv: "none", Wish: wish, X: 5, Script: c36Script{N: 100, Turns: []c36Turn{emit(8, 1)}}, ReleaseNow: true}
+				c := c36Call{Method: m, Dyn: kd.dyn, Adv: "none", Wish: wish, X: 5, Script: c36Script{N: 100, Turns: []c36Turn{emit(8, 1)}}, ReleaseNow: true}
 				for i := 0; i < nItems; i++ {
 					c.Items = append(c.Items, c36Item{Wish: "inline", Rows: 2, Val: 1})
 				}
@@ -1022,13 +1054,20 @@ func c36GenInputs(r *rand.Rand, n int, tier string) []c36In {
 				c3 := c
 				c3.Adv = "other"
 				out = append(out, c36In{Class: "ptr-refused-attached", Data: 16384, Calls: []c36Call{bigBlob("good", "inline", true), c2, canary(), c3, canary()}})
+				if kd.dyn {
+					// the refusals back to back, then served calls of the same dynamic method (request inline / resolvable pointer)
+					ok1, ok2 := c, c
+					ok1.Wish, ok1.Adv = "inline", "none"
+					ok2.Wish, ok2.Adv = "ptr", "good"
+					out = append(out, c36In{Class: "dyn-refused-then-served", Data: 16384, Calls: []c36Call{c, c2, ok1, c3, ok2, canary()}})
+				}
 			}
 		}
 	}
 	// exchange inputs as pointers: engaged by advertisement, engaged by a pointer request, NOT engaged
 	for _, mode := range []string{"adv", "reqptr", "unengaged", "unengaged-never"} {
 		first := bigBlob("good", "inline", true)
-		c := c36Call{Method: "exch", X: 1, Script: c36Script{Turns: []c36Turn{emit(8, 1), emit(2, 2), emit(8, 3)}},
+		c := c36Call{Method: "exch", Dyn: mode == "reqptr" || mode == "unengaged", X: 1, Script: c36Script{Turns: []c36Turn{emit(8, 1), emit(2, 2), emit(8, 3)}},
 			Items: []c36Item{{Wish: "ptr", Rows: 8, Val: 2}, {Wish: "inline", Rows: 6, Val: 1}, {Wish: "ptr", Rows: 2, Val: 5}}, ReleaseNow: true}
 		switch mode {
 		case "adv":
@@ -1081,7 +1120,7 @@ func c36GenInputs(r *rand.Rand, n int, tier string) []c36In {
 	for _, ab := range [][2]int{{1, 2}, {2, 1}, {0, 1}, {1, 0}, {0, 3}, {3, 2}, {4, 5}, {5, 4}, {0, 4}, {1, 1}} {
 		for _, m := range []string{"prod", "exch"} {
 			mk := func(vr int, val int64, rel bool) c36Call {
-				c := c36Call{Method: m, Adv: "good", Wish: "inline", X: 1, ReleaseNow: rel,
+				c := c36Call{Method: m, Dyn: vr%2 == 1, Adv: "good", Wish: "inline", X: 1, ReleaseNow: rel,
 					Script: c36Script{Var: vr, Turns: []c36Turn{emit(8, val), emit(16, val+1)}}}
 				for k := 0; k < 2; k++ {
 					it := c36Item{Wish: "inline"}
@@ -1132,6 +1171,6 @@ func c36GenInputs(r *rand.Rand, n int, tier string) []c36In {
 
 func init() {
 	_ = json.Marshal
-	Register("C36", "histories of 1-8 (thorough 1-20) unary / producer / exchange calls with results and batches on both sides of the shm size gate (gate 48, also 1 / 64 / 120 in the random streams), stream methods whose init handler builds a fresh output schema per call among six variants (plain, field metadata a / b, schema metadata, fixed_size_binary 16 / 32: two groups of equal Arrow fingerprint) with every batch's decoding schema rendered in full and compared, turns that answer or fail (error, panic, nothing emitted, two batches, Finish on an exchange) after consuming an inline or pointer input, segment data areas from 1 byte to 16 KiB, every advertisement pattern (never, once, always, name only, size 0, another name), request and exchange-input batches sent inline / as pointer batches / as pointers to nowhere, release at once or at the end; each history is played through Server.Serve twice, by a client owning a real POSIX segment and by a client without one; boundary classes first, then honest clients (2/3), then unconstrained ones; non-trivial = at least two calls and at least one pointer batch travelled in either direction; distinct = distinct input JSON",
+	Register("C36", "histories of 1-8 (thorough 1-20) unary / producer / exchange calls, the stream calls going to the static methods or to one DYNAMIC stream method (DynamicStreamWithHeader; state type chosen per call), refused pointer requests (no segment / pointer to nowhere / detached by another name) to every method kind incl. dynamic producer and exchange followed by further calls, with results and batches on both sides of the shm size gate (gate 48, also 1 / 64 / 120 in the random streams), stream methods whose init handler builds a fresh output schema per call among six variants (plain, field metadata a / b, schema metadata, fixed_size_binary 16 / 32: two groups of equal Arrow fingerprint) with every batch's decoding schema rendered in full and compared, turns that answer or fail (error, panic, nothing emitted, two batches, Finish on an exchange) after consuming an inline or pointer input, segment data areas from 1 byte to 16 KiB, every advertisement pattern (never, once, always, name only, size 0, another name), request and exchange-input batches sent inline / as pointer batches / as pointers to nowhere, release at once or at the end; each history is played through Server.Serve twice, by a client owning a real POSIX segment and by a client without one; boundary classes first, then honest clients (2/3), then unconstrained ones; non-trivial = at least two calls and at least one pointer batch travelled in either direction; distinct = distinct input JSON",
 		c36GenInputs, c36Run)
 }
